@@ -597,6 +597,14 @@ func renderTopics(codeFile string, topics []topic, results []*topicOut, fnOwner,
 		sb.WriteString("\nend LZ.Gen\n")
 		write("CodeIfacePrelude", sb.String())
 	}
+	{
+		var sb strings.Builder
+		header(&sb, "Sixth prelude of the translation (code_lend.go): a window of a byte slice lent to a callee.", []string{"CodeSlicePrelude"})
+		sb.WriteString("namespace LZ.Gen\n\n")
+		sb.WriteString(leanPrelude6())
+		sb.WriteString("\nend LZ.Gen\n")
+		write(lendPreludeName, sb.String())
+	}
 	errVarNames := map[string]bool{}
 	{
 		// every package-level error variable that is a constant, whether a topic uses it or not:
@@ -712,6 +720,9 @@ func renderTopics(codeFile string, topics []topic, results []*topicOut, fnOwner,
 			}
 			if part5Topics[res.t.name] {
 				imports = append(imports, "CodeIfacePrelude")
+				if strings.Contains(body.String(), "Slice.writeBack") {
+					imports = append(imports, lendPreludeName) // code_lend.go
+				}
 			}
 			for _, tok := range identRe.FindAllString(body.String(), -1) {
 				if errVarNames[tok] {
@@ -738,7 +749,7 @@ func renderTopics(codeFile string, topics []topic, results []*topicOut, fnOwner,
 	{
 		var sb strings.Builder
 		header(&sb, "Umbrella: imports every topic module that could be translated.",
-			append([]string{"CodePrelude", "CodeSlicePrelude", "CodeGSlicePrelude", "CodePart4Prelude", "CodeIfacePrelude", "CodeErrVars"}, present...))
+			append([]string{"CodePrelude", "CodeSlicePrelude", "CodeGSlicePrelude", "CodePart4Prelude", "CodeIfacePrelude", lendPreludeName, "CodeErrVars"}, present...))
 		for _, res := range results {
 			if res.refused {
 				fmt.Fprintf(&sb, "-- topic %s REFUSED: %s\n", res.t.name, oneLine(strings.ReplaceAll(res.msg, "extract: ", "")))
@@ -749,7 +760,7 @@ func renderTopics(codeFile string, topics []topic, results []*topicOut, fnOwner,
 		}
 	}
 	// modules of topics that no longer exist (an older topic table) must not linger
-	keep := map[string]bool{"Code.lean": true, "CodeAttr.lean": true, "CodePrelude.lean": true, "CodeSlicePrelude.lean": true, "CodeGSlicePrelude.lean": true, "CodePart4Prelude.lean": true, "CodeIfacePrelude.lean": true, "CodeErrVars.lean": true}
+	keep := map[string]bool{"Code.lean": true, "CodeAttr.lean": true, "CodePrelude.lean": true, "CodeSlicePrelude.lean": true, "CodeGSlicePrelude.lean": true, "CodePart4Prelude.lean": true, "CodeIfacePrelude.lean": true, lendPreludeName + ".lean": true, "CodeErrVars.lean": true}
 	for _, f := range present {
 		keep[f+".lean"] = true
 	}
